@@ -19,11 +19,16 @@ exactly what it read as before the step **when that was a recognised graph**.  A
 graph that looks valid.  A step that returns normally must read back as its graph.  Foreign members must
 stay byte-identical.
 
-Correspondence with the Lean model: for every torn pre-state reached, the fault-free trace of the next
-write from that *real* store content equals the model's trace from the same content (mutation by
-mutation, outcome included), every faulted run is a prefix of it, the model's invariant of torn states
-(`tornOkB`, proved closed under interrupted writes in GeffProofs/KVTorn.lean) holds of the real content,
-and whenever the real reader accepts a state the model's `recognised` is true.
+Correspondence with the Lean model (GeffModel/KVTorn.lean: `writeArraysT` — the verdict of the final
+`validate_structure` is taken on the store as committed, so left-over property members of a torn store
+that the guard did not delete make the write end with ValueError + clean-up): for every torn pre-state
+reached, the fault-free trace of the next write from that *real* store content equals the model's trace
+from the same content (mutation by mutation, outcome included), every faulted run is a prefix of it;
+every real pre-state is one the theorems speak about (the guard takes it for a geff, or it satisfies
+`tornOkB`, proved closed under interrupted writes in GeffProofs/KVTorn.lean); the committed store is
+`deleteSafeB` whenever the pre-state was reached through program-order prefixes (hypothesis of the
+crash-point theorem for the clean-up phase); and whenever the real reader accepts a state the model's
+`recognised` is true.
 """
 from __future__ import annotations
 
@@ -468,7 +473,7 @@ def judge(ck, results, drv):
     if answers is None:
         ck.broken.append({"what": "driver Drivers/C05.lean (history)", "detail": drv.broken})
         answers = []
-    n_traces = n_inv = 0
+    n_traces = n_inv = n_stale = n_safe = n_residue = 0
     for (r, what, i), m in zip(where, answers):
         task = r["task"]
         if m is None or "err" in m:
@@ -512,16 +517,35 @@ def judge(ck, results, drv):
                                {"out": m["outcome"], "n": len(mops), "op": mops[first:first + 2]})
                 continue
             n_traces += 1
-        # the invariant of torn states proved closed under interrupted writes holds of the real content
+        # every real pre-state is covered by the theorems: the guard takes it for a geff (PreOK.held side) or it
+        # satisfies the invariant of torn stores, proved closed under interrupted writes (GeffProofs/KVTorn.lean)
+        pre_case = (flat_case(task, with_sweep=False) if what == "sweep" else
+                    flat_case(task, upto=i - 1) if i else {"stream": "history", **{k: task[k] for k in ("fmt", "kind")}, "steps": []})
         if "torn_ok" in m:
             n_inv += 1
-            if not m["torn_ok"]:
-                ck.corr_broken("C05:history-torn-invariant", flat_case(task, with_sweep=False) if what == "sweep" else
-                               flat_case(task, upto=i - 1) if i else {"stream": "history", **{k: task[k] for k in ("fmt", "kind")}, "steps": []},
-                               "real store content reached by a history of interrupted writes", "model: tornOkB = false")
+            if not (m["torn_ok"] or m["check"]):
+                ck.corr_broken("C05:history-torn-invariant", pre_case,
+                               "real store content reached by a history of interrupted writes",
+                               "model: neither check_for_geff nor tornOkB")
+            if m.get("stale"):
+                n_stale += 1
+            # hypothesis of the clean-up part of the crash-point theorem from torn pre-states: the committed store
+            # is deleteSafeB.  Checked where the pre-state was reached through program-order prefixes only (a
+            # concurrent sibling of a failed mutation that still lands can put `nodes/.zattrs` before `nodes/.zgroup`)
+            earlier = r["steps"] if what == "sweep" else r["steps"][:i]
+            residue = any(x["fault_hit"] and x["nops"] > x["fail_at"] + 1 for x in earlier)
+            if m.get("committed") and K.model_kind(task["kind"]) == "mem":
+                if residue:
+                    n_residue += 1
+                else:
+                    n_safe += 1
+                    if not m.get("commit_delete_safe", True):
+                        ck.corr_broken("C05:history-commit-not-delete-safe", flat_case(task) if what == "sweep" else flat_case(task, upto=i),
+                                       "store committed by a write on a torn pre-state", "model: deleteSafeB = false")
     ck.extra.update(history_tasks=len(results), history_prefix_steps=n_steps, history_torn_prestates=n_torn,
                     history_fault_points=n_points, history_verdicts=verdicts, history_traces_validated=n_traces,
-                    history_invariant_checked=n_inv)
+                    history_invariant_checked=n_inv, history_writes_rejected_for_leftovers=n_stale,
+                    history_commit_delete_safe_checked=n_safe, history_commits_after_sibling_residue=n_residue)
     return n_points
 
 
@@ -557,4 +581,37 @@ def replay_case(case):
                 s["out"] == "ok" and s["verdict"] != "new" and not st["g"].get("invalid")):
             bad = True
     print("REPLAY: property FAILS on this input" if bad else "REPLAY: property holds on this input")
+    return 1 if bad else 0
+
+
+def replay_broken(entries):
+    """replay of a `…-broken-…` file: the history cases on which model and implementation disagreed are run
+    again, on the implementation and through the driver; prints both sides per step.  0: they agree now."""
+    drv = common.LeanDriver(PROP)
+    bad = False
+    for ent in entries:
+        case = (ent.get("detail") or {}).get("case")
+        if not case or case.get("stream") != "history":
+            print(json.dumps({"not-replayable": ent.get("what")}))
+            continue
+        task = {**case, "sweep": None, "model": True}
+        r = run_task(task)
+        if "harness_error" in r:
+            print(r["harness_error"], r.get("tb"))
+            return 2
+        reqs = [(i, model_request(task, s["pre"], task["steps"][i], s["g_model"]))
+                for i, s in enumerate(r["steps"]) if s.get("g_model") is not None]
+        answers = drv.ask([q for _, q in reqs]) or []
+        for (i, _), m in zip(reqs, answers):
+            s, st = r["steps"][i], task["steps"][i]
+            mops = [[o[0], o[1]] for o in m.get("ops", [])]
+            k = s["fail_at"]
+            agree = (s["log"][:k + 1] == mops[:k + 1]) if s["fault_hit"] else (mops == s["log"] and m.get("outcome") == s["out"])
+            print(json.dumps({"step": f"{st['entry']} salt={st['g'].get('salt')} overwrite={st.get('overwrite', False)}",
+                              "fail_at": k, "impl": {"outcome": s["out"], "mutations": s["nops"], "target_reads_as": s["verdict"]},
+                              "model": {"outcome": m.get("outcome"), "mutations": len(mops), "leftover_members": m.get("stale"),
+                                        "pre_state_torn_ok": m.get("torn_ok"), "guard_sees_geff": m.get("check")},
+                              "agree": agree}))
+            bad = bad or not agree or s["verdict"] == "WRONG" or not s["foreign_ok"]
+    print("REPLAY: model and implementation DISAGREE" if bad else "REPLAY: model and implementation agree; property holds on these inputs")
     return 1 if bad else 0
